@@ -132,7 +132,7 @@ theorem concat_split_empty (a : Arr α) (zero : α) (parts k : Nat) (he : a.isEm
   have h1 : a.arraySplit zero parts (some k) = .ok [a] := by
     unfold Arr.arraySplit
     rw [if_neg (by omega)]
-    simp only [hd, he, Bool.false_eq_true, if_false, if_true]
+    simp only [Option.getD_some, hd, he, Bool.false_eq_true, if_false, if_true]
   rw [h1, Res.bind_ok]
   have hv : validateStackShapes [a] k k = .ok () := by
     unfold validateStackShapes
